@@ -804,6 +804,92 @@ theorem rational_time_euler_exact (C : Carrier α) (M : Model α) (tv : Nat → 
     (Ctx.mk C (ratTS start dt err tv) M tv (fun k => start + k * dt) N r (compile M)).EulerExact :=
   xmile_run_eq_euler (normalize_keys_on_grid C M tv r N start dt err hdt herr _) hA (Or.inl rfl)
 
+/-! ### The reference really is the Euler recurrence: one integration step per grid interval -/
+
+theorem sumAcc_congr (C : Carrier α) (look look' : Nat → Option α) (ns : List Nat)
+    (h : ∀ m ∈ ns, look m = look' m) (acc : α) : sumAcc C look acc ns = sumAcc C look' acc ns := by
+  induction ns generalizing acc with
+  | nil => rfl
+  | cons n ns ih =>
+    simp only [sumAcc]
+    rw [h n (by simp)]
+    cases look' n with
+    | none => rfl
+    | some v => exact ih (fun m hm => h m (by simp [hm])) _
+
+theorem sumL_congr (C : Carrier α) (look look' : Nat → Option α) (n : Nat) (ns : List Nat)
+    (h : ∀ m ∈ n :: ns, look m = look' m) : sumL C look n ns = sumL C look' n ns := by
+  simp only [sumL]
+  rw [h n (by simp)]
+  cases look' n with
+  | none => rfl
+  | some v => exact sumAcc_congr C look look' ns (fun m hm => h m (by simp [hm])) _
+
+theorem net_congr (C : Carrier α) (look look' : Nat → Option α) (ins outs : List Nat)
+    (h : ∀ m ∈ ins ++ outs, look m = look' m) : net C look ins outs = net C look' ins outs := by
+  match ins, outs with
+  | [], [] => rfl
+  | i :: is, [] => simp only [net]; exact sumL_congr C look look' i is (fun m hm => h m (by simpa using hm))
+  | [], o :: os =>
+    simp only [net]; rw [sumL_congr C look look' o os (fun m hm => h m (by simpa using hm))]
+  | i :: is, o :: os =>
+    simp only [net]
+    rw [sumL_congr C look look' i is (fun m hm => h m (by simp only [List.mem_append]; exact Or.inl hm)),
+      sumL_congr C look look' o os (fun m hm => h m (by simp only [List.mem_append]; exact Or.inr hm))]
+
+/-- every element has an Euler value at every index of the horizon -/
+theorem euler_val (hG : X.GridOK) (hA : X.Acyclic) (hR : X.RunsGraph) {n k : Nat} (hn : n < X.len) (hk : k ≤ X.N) :
+    ∃ v, X.Val n k v ∧ euler X.C X.M X.tv n k = some v := by
+  obtain ⟨v, h1, _⟩ := good hG hA (code_of_runsGraph hR) (X.mu n k + 1) n k (by omega) hn hk
+  refine ⟨v, h1, ?_⟩
+  have hb := hA.bound n hn
+  have : X.mu n k + 1 ≤ fuelFor X.M.elems.length X.M.elems.length k := by
+    simp only [Ctx.mu, fuelFor, Ctx.len] at *; omega
+  simpa [euler, Ctx.eu] using h1 _ this
+
+/-- `stock (k+1) = stock k + dt * net k`, net = (Σ inflows) − (Σ outflows) evaluated at index k: the
+reference trajectory advances by exactly one explicit-Euler step per grid interval -/
+theorem euler_stock_succ (hG : X.GridOK) (hA : X.Acyclic) (hR : X.RunsGraph) {n k : Nat} {init : Ex α}
+    {ins outs : List Nat} (hel : X.M.elems[n]? = some (.stock init ins outs)) (hk : k + 1 ≤ X.N) :
+    ∃ s d, euler X.C X.M X.tv n k = some s ∧
+      net X.C (fun m => euler X.C X.M X.tv m k) ins outs = some d ∧
+      euler X.C X.M X.tv n (k + 1) = some (X.C.bin .add s (X.C.bin .mul X.M.dtv d)) := by
+  have hn : n < X.len := by simp only [Ctx.len]; exact (List.getElem?_eq_some_iff.mp hel).1
+  have hk' : k ≤ X.N := by omega
+  obtain ⟨s, hsv, hs⟩ := euler_val hG hA hR hn hk'
+  obtain ⟨w, hwv, hw⟩ := euler_val hG hA hR hn hk
+  -- unfold one step of the reference at the canonical fuel
+  have hb := hA.bound n hn
+  have hfuel : fuelFor X.M.elems.length X.M.elems.length (k + 1) =
+      ((k + 1) * (X.M.elems.length + 1) + X.M.elems.length) + 1 := by simp [fuelFor]
+  have hF : X.mu n k + 1 ≤ (k + 1) * (X.M.elems.length + 1) + X.M.elems.length := by
+    have := Nat.succ_mul k (X.M.elems.length + 1)
+    simp only [Ctx.mu, Ctx.len, Nat.succ_eq_add_one] at *
+    omega
+  have hs' : eulerF X.C X.M X.tv ((k + 1) * (X.M.elems.length + 1) + X.M.elems.length) n k = some s := by
+    simpa [Ctx.eu] using hsv _ hF
+  have hcongr : net X.C (fun m => eulerF X.C X.M X.tv ((k + 1) * (X.M.elems.length + 1) + X.M.elems.length) m k) ins outs
+      = net X.C (fun m => euler X.C X.M X.tv m k) ins outs := by
+    apply net_congr
+    intro m hm
+    have hml := hA.prev n _ hel m (by simpa [prevRefs] using hm)
+    obtain ⟨vm, hvm, hem⟩ := euler_val hG hA hR hml hk'
+    have hbm := hA.bound m hml
+    have hFm : X.mu m k + 1 ≤ (k + 1) * (X.M.elems.length + 1) + X.M.elems.length := by
+      have := Nat.succ_mul k (X.M.elems.length + 1)
+      simp only [Ctx.mu, Ctx.len, Nat.succ_eq_add_one] at *
+      omega
+    have := hvm _ hFm
+    simp only [Ctx.eu] at this
+    rw [this, hem]
+  have hw' := hw
+  simp only [euler, hfuel, eulerF, hel, hs', hcongr] at hw'
+  cases hd : net X.C (fun m => euler X.C X.M X.tv m k) ins outs with
+  | none => simp [hd] at hw'
+  | some d =>
+    simp only [hd, Option.some.injEq] at hw'
+    exact ⟨s, d, hs, rfl, by rw [hw, ← hw']⟩
+
 /-! ### Non-vacuity -/
 
 /-- a two-stock feedback graph with a stock-to-stock uniflow, a biflow, an auxiliary using TIME and a
@@ -842,6 +928,7 @@ example : runVal intCarrier (natTS (fun _ => (0 : Int))) 1 (compile wM) 40 [] 0 
 #print axioms skeletons_parse
 #print axioms skelPyP_parses
 #print axioms lerp_interior
+#print axioms euler_stock_succ
 #print axioms normalize_keys_on_grid
 #print axioms rational_time_euler_exact
 
